@@ -203,6 +203,9 @@ Section Detect.
   Lemma in_tableB L j : (1 <= j < L)%nat -> In (j, row j) (tableB L).
   Proof. intros H. unfold tableB. apply in_map_iff. exists j. split; [reflexivity|]. apply in_seq. lia. Qed.
 
+  Lemma zn1_zn a x : zn 1 (zn a x) = zn (a + 1) x.
+  Proof. symmetry. apply zn_add. Qed.
+
   Section Sound.
     Variable A : PositiveMap.t nat.
     Variable L : nat.
@@ -273,8 +276,6 @@ Section Detect.
 
     Ltac bound := repeat first [assumption | apply zero_lt_W | apply lxor_lt | apply zn_lt].
 
-    Lemma zn1_zn a x : zn 1 (zn a x) = zn (a + 1) x.
-    Proof. symmetry. apply zn_add. Qed.
 
     Theorem no_light_codeword e : (length e <= L)%nat -> Forall (fun v => v < 2 ^ sb) e ->
       (1 <= weight e <= 4)%nat -> pm 0 e <> 0.
@@ -332,5 +333,107 @@ Section Detect.
     apply (certificate_sound L C (xorl d1 d2)); [rewrite xorl_length; assumption|apply xorl_small; assumption|assumption|].
     pose proof (pm_linear gens shift sb d1 d2 c c Hl) as P. rewrite N.lxor_nilpotent in P. rewrite P, E.
     apply N.lxor_nilpotent.
+  Qed.
+
+  (* ---- a non-zero target: no word of weight <= 3 within L positions has syndrome D.
+          Used for D = (Bech32 constant) xor (Bech32m constant): up to three substitutions cannot turn a
+          string valid under one constant into a string valid under the other.  Positions are absolute
+          (counted from the end of the word): syndrome D is not invariant under shifts. *)
+  Definition tableAll (L : nat) : list (nat * list N) := map (fun j => (j, row j)) (seq 0 L).
+
+  Definition buildM (L : nat) : PositiveMap.t nat :=
+    fold_left (fun m jr => fold_left (fun m x => PositiveMap.add (N.succ_pos x) (fst jr) m) (snd jr) m)
+              (tableAll L) (PositiveMap.empty nat).
+
+  Definition checkM (M : PositiveMap.t nat) (D : N) (L : nat) : bool :=
+    forallb (fun jr => forallb (fun x => negb (x =? D) && opt_is (lookup M x) (fst jr)) (snd jr)) (tableAll L).
+
+  Definition checkX2 (M : PositiveMap.t nat) (D : N) (L : nat) : bool :=
+    let T := tableAll L in
+    forallb (fun jr3 => forallb (fun jr4 =>
+      (fst jr4 <=? fst jr3)%nat ||
+      forallb (fun x => forallb (fun y =>
+        negb (N.lxor x y =? D) &&
+        match lookup M (N.lxor D (N.lxor x y)) with
+        | None => true
+        | Some p => Nat.eqb p (fst jr3) || Nat.eqb p (fst jr4)
+        end) (snd jr4)) (snd jr3)) T) T.
+
+  Definition certificateX (D : N) (L : nat) : bool :=
+    let M := buildM L in checkM M D L && checkX2 M D L.
+
+  Lemma in_tableAll L j : (j < L)%nat -> In (j, row j) (tableAll L).
+  Proof. intros H. unfold tableAll. apply in_map_iff. exists j. split; [reflexivity|]. apply in_seq. lia. Qed.
+
+  Section SoundX.
+    Variable M : PositiveMap.t nat.
+    Variable D : N.
+    Variable L : nat.
+    Hypothesis HM : checkM M D L = true.
+    Hypothesis HX : checkX2 M D L = true.
+
+    Lemma GM j v : (j < L)%nat -> In v vals -> zn j v <> D /\ lookup M (zn j v) = Some j.
+    Proof.
+      intros Hj Hv. unfold checkM in HM. rewrite forallb_forall in HM.
+      specialize (HM _ (in_tableAll L j Hj)). cbn [fst snd] in HM.
+      rewrite forallb_forall in HM. specialize (HM _ (in_row j v Hv)).
+      apply andb_true_iff in HM. destruct HM as [N1 N2]. apply negb_true_iff, N.eqb_neq in N1. split; [exact N1|].
+      unfold opt_is in N2. destruct (lookup M (zn j v)) as [p|]; [|discriminate]. apply Nat.eqb_eq in N2. congruence.
+    Qed.
+
+    Lemma GX j3 j4 x y : (j3 < j4)%nat -> (j4 < L)%nat -> In x vals -> In y vals ->
+      N.lxor (zn j3 x) (zn j4 y) <> D /\
+      forall p, lookup M (N.lxor D (N.lxor (zn j3 x) (zn j4 y))) = Some p -> p = j3 \/ p = j4.
+    Proof.
+      intros H1 H2 Hx Hy. unfold checkX2 in HX. rewrite forallb_forall in HX.
+      specialize (HX _ (in_tableAll L j3 ltac:(lia))). rewrite forallb_forall in HX.
+      specialize (HX _ (in_tableAll L j4 ltac:(lia))). cbn [fst snd] in HX.
+      apply orb_true_iff in HX. destruct HX as [C|C]; [apply Nat.leb_le in C; lia|].
+      rewrite forallb_forall in C. specialize (C _ (in_row j3 x Hx)).
+      rewrite forallb_forall in C. specialize (C _ (in_row j4 y Hy)).
+      apply andb_true_iff in C. destruct C as [C1 C2]. apply negb_true_iff, N.eqb_neq in C1. split; [exact C1|].
+      intros p E. rewrite E in C2. apply orb_true_iff in C2. destruct C2 as [C2|C2]; apply Nat.eqb_eq in C2; auto.
+    Qed.
+
+    Lemma coreX3 ja jb jc v1 v2 v3 : (ja < jb)%nat -> (jb < jc)%nat -> (jc < L)%nat ->
+      In v1 vals -> In v2 vals -> In v3 vals ->
+      N.lxor (N.lxor (zn jc v1) (zn jb v2)) (zn ja v3) <> D.
+    Proof.
+      intros H1 H2 H3 I1 I2 I3 Z.
+      destruct (GM jc v1 H3 I1) as [_ LM]. destruct (GX ja jb v3 v2 H1 ltac:(lia) I3 I2) as [_ GXp].
+      assert (E : N.lxor D (N.lxor (zn ja v3) (zn jb v2)) = zn jc v1).
+      { rewrite <- Z. apply N.bits_inj. intro i. rewrite !N.lxor_spec.
+        destruct (N.testbit (zn jc v1) i), (N.testbit (zn jb v2) i), (N.testbit (zn ja v3) i); reflexivity. }
+      rewrite <- E in LM. apply GXp in LM. lia.
+    Qed.
+
+    Theorem no_light_coset e : (length e <= L)%nat -> Forall (fun v => v < 2 ^ sb) e ->
+      (1 <= weight e <= 3)%nat -> pm 0 e <> D.
+    Proof.
+      intros Hlen He Hw.
+      destruct (decompose (weight e) e eq_refl He) as (p & Lp & -> & Sp & Fp).
+      assert (Hin : forall av, In av p -> In (snd av) vals).
+      { intros av I. rewrite Forall_forall in Fp. destruct (Fp av I). apply in_vals; assumption. }
+      destruct p as [|[a4 v4] [|[a3 v3] [|[a2 v2] [|? ?]]]]; cbn [length] in Lp; try lia.
+      - cbn [synp span] in *. rewrite zn_0, N.lxor_0_l. apply GM; [lia|]. apply (Hin (a4, v4)). simpl; auto.
+      - cbn [synp span] in *.
+        pose proof (Hin (a4, v4) ltac:(simpl; auto)) as I4. pose proof (Hin (a3, v3) ltac:(simpl; auto)) as I3. cbn [snd] in *.
+        rewrite zn_0, N.lxor_0_l, !zn1_zn, !zn_lin, <- !zn_add, N.lxor_comm. apply GX; try assumption; lia.
+      - cbn [synp span] in *.
+        pose proof (Hin (a4, v4) ltac:(simpl; auto)) as I4. pose proof (Hin (a3, v3) ltac:(simpl; auto)) as I3.
+        pose proof (Hin (a2, v2) ltac:(simpl; auto)) as I2. cbn [snd] in *.
+        rewrite zn_0, N.lxor_0_l, !zn1_zn, !zn_lin, <- !zn_add. apply coreX3; try assumption; lia.
+    Qed.
+  End SoundX.
+
+  Theorem certificateX_sound D L : certificateX D L = true ->
+    forall c d1 d2, length d1 = length d2 -> (length d1 <= L)%nat ->
+      Forall (fun v => v < 2 ^ sb) d1 -> Forall (fun v => v < 2 ^ sb) d2 ->
+      (1 <= hamming d1 d2 <= 3)%nat -> N.lxor (pm c d1) (pm c d2) <> D.
+  Proof.
+    unfold certificateX. intros C c d1 d2 Hl HL H1 H2 Hh. apply andb_true_iff in C. destruct C as [C1 C2].
+    rewrite hamming_weight in Hh.
+    pose proof (pm_linear gens shift sb d1 d2 c c Hl) as P. rewrite N.lxor_nilpotent in P. rewrite <- P.
+    apply (no_light_coset (buildM L) D L C1 C2); [rewrite xorl_length; assumption|apply xorl_small; assumption|assumption].
   Qed.
 End Detect.
